@@ -56,7 +56,10 @@ func (r *bytesReader) Read(data []byte) (int, error) {
 
 // Buffer holds an in-memory implementation of ociregistry.BlobWriter.
 type Buffer struct {
-	commit           func(b *Buffer) error
+	commit func(b *Buffer) error
+	// commitMu serializes calls to Commit. It's separate from mu
+	// so that the commit function can call locked Buffer methods.
+	commitMu         sync.Mutex
 	mu               sync.Mutex
 	buf              []byte
 	checkStartOffset int64
@@ -156,6 +159,11 @@ func (b *Buffer) ID() string {
 // Commit implements [ociregistry.BlobWriter.Commit] by checking
 // that everything looks OK and calling the commit function if so.
 func (b *Buffer) Commit(dig ociregistry.Digest) (_ ociregistry.Descriptor, err error) {
+	// Note: the content that has been checked (see GetBlob) is
+	// per-buffer state, so another Commit must not replace it until
+	// the commit function has seen it.
+	b.commitMu.Lock()
+	defer b.commitMu.Unlock()
 	desc, err := b.checkCommit(dig)
 	if err != nil {
 		return ociregistry.Descriptor{}, err
